@@ -12,22 +12,22 @@
 CONSTANTS Members, Vals, HwMax, HwModes, Excs,                \* LinkedStruct
           Tables, Shapes, Modes, Xs,                  \* LinkedFloatEnum
           Kinds, Lo, Hi, PVals, LVals, ForbSets, HookExcs, Inits,\* LinkedLimits
-          Layouts                               \* LinkedControl
+          Layouts, CExcs                        \* LinkedControl
 VARIABLES hwmode, exc, shw, mem, str, merr, serr, sok,
           tab, shape, mode, idx, fhw, req, fval, flast,
           kind, forb, hexc, lo, hi, lval, llast,
-          lay, active, cby, foreign
+          lay, cexc, active, cby, foreign
 
 S == INSTANCE LinkedStruct WITH hw <- shw, ok <- sok
 F == INSTANCE LinkedFloatEnum WITH tab <- tab, shape <- shape, mode <- mode, idx <- idx, hw <- fhw, req <- req,
                                 val <- fval, last <- flast, Tables <- Tables, Shapes <- Shapes, Modes <- Modes, Xs <- Xs
 L == INSTANCE LinkedLimits WITH val <- lval, last <- llast
-C == INSTANCE LinkedControl
+C == INSTANCE LinkedControl WITH Excs <- CExcs, exc <- cexc
 
 sv == <<hwmode, exc, shw, mem, str, merr, serr, sok>>
 fv == <<tab, shape, mode, idx, fhw, req, fval, flast>>
 lv == <<kind, forb, hexc, lo, hi, lval, llast>>
-cv == <<lay, active, cby, foreign>>
+cv == <<lay, cexc, active, cby, foreign>>
 
 Init == S!SInit /\ F!FInit /\ L!LInit /\ C!CInit
 Next == \/ S!SNext /\ UNCHANGED <<fv, lv, cv>>
